@@ -1241,7 +1241,7 @@ func (schema *Schema) visitJSON(settings *schemaValidationSettings, value any) (
 				SchemaField:           "type",
 				Reason:                "cannot convert json.Number to float64",
 				customizeMessageError: settings.customizeMessageError,
-				Origin:                err,
+				// no Origin: the conversion error quotes the value, and Error() prints the origin
 			}
 		}
 		return schema.visitJSONNumber(settings, valueFloat64)
@@ -1295,11 +1295,8 @@ func (schema *Schema) visitEnumOperation(settings *schemaValidationSettings, val
 		for _, v := range enum {
 			switch c := value.(type) {
 			case json.Number:
-				var f float64
-				if f, err = strconv.ParseFloat(c.String(), 64); err != nil {
-					return err
-				}
-				if v == f {
+				// not a number: equal to nothing (the conversion error would quote the value)
+				if f, e := strconv.ParseFloat(c.String(), 64); e == nil && v == f {
 					return
 				}
 			case int64:
@@ -1346,6 +1343,7 @@ func (schema *Schema) visitNotOperation(settings *schemaValidationSettings, valu
 				Value:                 value,
 				Schema:                schema,
 				SchemaField:           "not",
+				Reason:                `Doesn't match schema "not"`,
 				customizeMessageError: settings.customizeMessageError,
 			}
 		}
